@@ -49,6 +49,27 @@ func runReplayFile(path string, fs *hx.FindingSet) error {
 	return f(d.Trace, fs)
 }
 
+// witnessVerdict implements the findings protocol for checks that carry built-in (Go-coded)
+// witnesses: err is the result of running the witness of finding id on the tree under test.
+//   - witness passes                         -> nothing to do, no exclusion
+//   - fails and id is listed status=known    -> KNOWN-FINDING line, exclude the trigger shape
+//   - fails and id is fixed or not listed    -> VIOLATION (recurrence / unlisted defect); the
+//     trigger shape is still excluded so that the search continues behind it
+// It returns whether the trigger shape must be excluded from the generators.
+func witnessVerdict(t *testing.T, c *hx.Collector, fs *hx.FindingSet, id string, err error, trace interface{}) bool {
+	c.Count("witness:"+id, false, "witness")
+	if err == nil {
+		return false
+	}
+	if f, ok := fs.Listed(id); ok && f.Status == "known" {
+		c.Known(f.What)
+		return true
+	}
+	c.Violate("witness-"+id, fmt.Sprintf("witness of finding %s violates on this tree (finding is not listed as known): %v", id, err), trace)
+	t.Errorf("witness of finding %s violates: %v", id, err)
+	return true
+}
+
 // witnessStillFails is the probe used for known findings: true iff the witness still violates.
 func witnessStillFails(path string) bool {
 	return runReplayFile(path, nil) != nil
